@@ -72,6 +72,17 @@ pub mod verif_hooks {
         let _ = HOOK.set(hook);
     }
 
+    static FORCED_CHALLENGE: std::sync::Mutex<Option<u32>> = std::sync::Mutex::new(None);
+
+    /// Makes the next `digest::generate_challenge()` return `value` (replay of a solver-chosen challenge).
+    pub fn force_challenge(value: u32) {
+        *FORCED_CHALLENGE.lock().unwrap() = Some(value);
+    }
+
+    pub(crate) fn take_forced_challenge() -> Option<u32> {
+        FORCED_CHALLENGE.lock().unwrap().take()
+    }
+
     /// Called before visible step `point`; returns when the installed scheduler lets the calling thread proceed.
     #[inline(never)]
     pub fn yield_point(point: u32) {
